@@ -1,4 +1,6 @@
 import GomlVerif.Model.Alpha
+import GomlVerif.Model.Exports
+import GomlVerif.Gen.Exports
 import GomlVerif.Gen.Runtime
 import GomlVerif.Driver.Common
 import GomlVerif.Driver.DecSyntax
@@ -21,9 +23,62 @@ def offsetOf (fS fW : Fn) : Nat :=
   | some a, some b => b - a
   | _, _ => 0
 
+/-! ### `(linkenv <g0> (<pkg> …) <separate genv> <whole genv>)`: the link environment of both ways is what
+`Exports.applyAll` of the packages' exports (in the order given) computes, at the level of lookups -/
+
+open Goml.Exports in
+def decMap : Sexp → Option (String × IMap)
+  | .list (.atom f :: entries) =>
+    (entries.mapM fun (x : Sexp) =>
+      match x with
+      | .list [.atom k, .atom v] => some (k, v)
+      | _ => none).map fun es => (f, es)
+  | _ => none
+
+open Goml.Exports in
+def decEnv : Sexp → Option (List (String × IMap))
+  | .list ms => ms.mapM decMap
+  | _ => none
+
+open Goml.Exports in
+def linkenv (g0 : List (String × IMap)) (pkgs : List (String × List (String × IMap))) (sep whole : List (String × IMap)) : String :=
+  let maps := Goml.Gen.Exports.envMaps
+  let applied := Goml.Gen.Exports.appliedMaps
+  -- hypotheses of `applyAll_perm`, on the real exports
+  let notWf := pkgs.findSome? fun (p, e) => (e.find? fun (_, m) => !keysDistinct (m.map (·.1))).map fun (f, _) => s!"{p}:{f}"
+  let clash := pkgs.findSome? fun (p1, e1) => pkgs.findSome? fun (p2, e2) =>
+    if p1 == p2 then none else
+    maps.findSome? fun f => ((ofList e1 f).find? fun (k, v) =>
+      match IMap.lookup (ofList e2 f) k with
+      | some v2 => v2 != v
+      | none => false).map fun (k, _) => s!"{p1}/{p2}:{f}:{k}"
+  match notWf, clash with
+  | some w, _ => s!"differ\tduplicate-key-in-exports\t{w}"
+  | _, some c => s!"differ\ttwo-packages-export-the-same-key-differently\t{c}"
+  | none, none =>
+    let M := applyAll applied (pkgs.map fun (_, e) => ofList e) (ofList g0)
+    let bad := maps.find? fun f => !(IMap.agree (M f) (ofList sep f) && IMap.agree (M f) (ofList whole f))
+    let unknown := (sep ++ whole ++ g0).find? fun (f, _) => !maps.contains f
+    match bad, unknown with
+    | some f, _ => s!"differ\tlookup-differs\t{f}\tsep={IMap.agree (M f) (ofList sep f)}\twhole={IMap.agree (M f) (ofList whole f)}"
+    | _, some (f, _) => s!"differ\tmap-not-in-env.rs\t{f}"
+    | none, none =>
+      let nkeys := (maps.map fun f => (M f).length).foldl (· + ·) 0
+      let npk := (pkgs.map fun (_, e) => (e.map fun (_, m) => m.length).foldl (· + ·) 0).foldl (· + ·) 0
+      let sameOrder := maps.all fun f => (M f).map (·.1) == (ofList sep f).map (·.1)
+      s!"ok\tmaps={maps.length}\tkeys={nkeys}\tpkgkeys={npk}\tpkgs={pkgs.length}\tsame-iteration-order-as-separate={sameOrder}"
+
 def runLine (l : String) : String :=
   let (id, rest) := splitTab l
   match Sexp.parse rest with
+  | some (.list [.atom "linkenv", g0, .list pkgs, sep, whole]) =>
+    let dpk := pkgs.mapM fun (x : Sexp) =>
+      match x with
+      | .list [.atom p, e] => (decEnv e).map fun e => (p, e)
+      | _ => none
+    match decEnv g0, dpk, decEnv sep, decEnv whole with
+    | some g0, some pkgs, some sep, some whole => s!"{id}\tlinkenv\t{linkenv g0 pkgs sep whole}"
+    | _, _, _, _ => s!"{id}\tdecode-error"
   | some (.list [.atom "equiv", s, w]) =>
     match decProg s, decProg w with
     | some S, some W =>
